@@ -285,7 +285,7 @@ class _Judge:
         w.update(kw)
         self.rec.violation('C04/' + mech, msg, w)
 
-    def cmp(self, what, a, b, rt, mech, label, div=1.0, **kw):
+    def cmp(self, what, a, b, rt, mech, label, div=1.0, atol=0.0, **kw):
         """a observed, b oracle; what in f,g,H,B selects the scale; div: scales divided by (scaled variants)"""
         self.rec.ev()
         a = np.asarray(a, dtype=float)
@@ -293,7 +293,7 @@ class _Judge:
         if a.shape != b.shape:
             self.viol(mech, f'{label}: shape {a.shape} vs {b.shape}', observed=a, expected=b, **kw)
             return False
-        tol = rt * np.asarray(self.scale[what], dtype=float) / div + ATOL
+        tol = rt * np.asarray(self.scale[what], dtype=float) / div + ATOL + atol
         with np.errstate(all='ignore'):
             ok = np.abs(a - b) <= tol
         if not np.all(ok):
@@ -528,7 +528,10 @@ def _model_case(case, rec):
             else:
                 rec.c('per_observation_gradient_differs_from_reference_left_to_C02')
             if g_ok and h_ok:
-                J.cmp('H', base['H'], ref['H'], RT_REF_H, 'hessian-differs-from-reference-weighted-sum', 'hessian vs sum w*d2l (reference)', threads=T0)
+                # noise floor of the finite-difference reference: eps*|g_n|/step per observation
+                fd_noise = 1e-8 * (ref['S_g'][:, None] + ref['S_g'][None, :]) + 1e-9 * float(np.abs(ref['w']).sum())
+                J.cmp('H', base['H'], ref['H'], RT_REF_H, 'hessian-differs-from-reference-weighted-sum', 'hessian vs sum w*d2l (reference)',
+                      atol=fd_noise, threads=T0)
                 rec.c('reference_hessian_compared')
             elif g_ok:
                 rec.c('per_observation_hessian_differs_from_reference_left_to_C02')
